@@ -15,6 +15,11 @@ def expected_args(pid, desc):
         if g is None:
             return None
         return ["C04", [g[0], g[1], [[a, i, j, q] for a, i, j, q in g[2]]], [[a, b, c] for a, b, c, *_ in spec.owned(desc)]]
+    if pid == "C06":
+        links = spec.described_links(desc)
+        if links is None:
+            return None
+        return ["C06", [[a, b, pa, pb] for a, b, pa, pb in links], len(spec.instances(desc))]
     if pid == "C07":
         return ["C07", [spec.camel(i["enum"]) for i in spec.instances(desc)]]
     return pid
